@@ -142,6 +142,11 @@ func (f *Fact) Cancel() {
 }
 func (f *Fact) GetP() *Sub { f.rec("GetP"); return f.P }
 
+// containers handed out by a method: selectors on a call result (`F.GetA()[0]`, `F.GetM()["a"]`)
+func (f *Fact) GetA() []int64          { f.rec("GetA"); return f.A }
+func (f *Fact) GetA2() []int64         { f.rec("GetA2"); return f.A }
+func (f *Fact) GetM() map[string]int64 { f.rec("GetM"); return f.M }
+
 // CancelRet cancels the run's context from inside a condition or a right-hand side
 func (f *Fact) CancelRet(k int64) int64 {
 	f.rec("CancelRet", k)
